@@ -232,6 +232,10 @@ def run_scenario(exe, scen_path, workdir=None, case_ids=None, batch_timeout=BATC
                         else:
                             k = "exit:%d@?" % rc
                     c.key = k
+                    if k == "signal:9@?":
+                        # SIGKILL without any report and not from our watchdog: the kernel's OOM killer picks its
+                        # victims among all processes of the machine.  Not a verdict: run the case again, alone.
+                        c.status = "timeout"
             start = index[open_id] + 1
             restarts += 1
             if restarts > max_restarts:
@@ -258,7 +262,8 @@ def run_scenario(exe, scen_path, workdir=None, case_ids=None, batch_timeout=BATC
                     c2 = one[cid]
                     c2.status = "crash"
                     c2.report = san
-                    c2.key = san_key(san) or "exit:%s@?" % p.returncode
+                    c2.key = san_key(san) or ("signal:%d@?" % -p.returncode if (p.returncode or 0) < 0
+                                              else "exit:%s@?" % p.returncode)
                     cases[cid] = c2
             except subprocess.TimeoutExpired:
                 try:
